@@ -78,3 +78,55 @@ Fixpoint resolves (e : env) (pm : pmap) (n : node) : Prop :=
   end.
 Definition all_resolve (e : env) (pm : pmap) (l : list node) : Prop := Forall (resolves e pm) l.
 Definition tail_ok (rest : list token) : Prop := rest = [] \/ exists q r, rest = TEnd q :: r.
+
+(* ---- the root: declarations first, then its own attributes ------------------------------------------------ *)
+Definition root_tok_attrs (pm : pmap) (attrs : list attr) : list (str * str) :=
+  declared_attributes pm ++ tok_attrs pm attrs.
+Definition toks_root (pm : pmap) (t : node) : list token :=
+  match t with
+  | Tag ns name attrs kids =>
+      let q := qname pm ns name in
+      if null kids then [TStart q (root_tok_attrs pm attrs) true]
+      else TStart q (root_tok_attrs pm attrs) false :: toks_kids pm kids ++ [TEnd q]
+  | _ => toks_node pm t
+  end.
+Definition render_attr_data (kv : str * str) : str * str := (fst kv, quote (escape_attr (snd kv))).
+
+(* ---- well-formed trees: what the API guarantees, the property's exclusions, the guards of the open findings
+   - local names of elements and attributes and PI targets are NCNames (lxml validates them); no attribute is
+     called "xmlns" and nothing lives in the xmlns namespace (guard of finding attribute-named-xmlns);
+   - namespace names and attribute values consist of XML Chars other than TAB, LF, CR (the property's
+     exclusion: no character references are produced), text / comments / PI content of XML Chars other than CR;
+   - attributes are listed in the order the serializer writes them (sorted by namespace and local name, as
+     impl.extract presents them), each expanded name once;
+   - comment content passes CommentNode._validate_content, PI content has no "?>" and does not start with white
+     space (guard of finding pi-content-leading-whitespace), the target is not "xml". *)
+Definition uri_ok (n : str) : Prop := Forall attr_char_ok n.
+Definition attr_wf (a : attr) : Prop :=
+  let '(ns, l, v) := a in
+  is_ncname l = true /\ l <> XMLNS_ /\ ns <> xmlns_ns /\ uri_ok ns /\ Forall attr_char_ok v.
+Fixpoint wf_node (n : node) : Prop :=
+  match n with
+  | Tag ns name attrs kids =>
+      is_ncname name = true /\ ns <> xmlns_ns /\ uri_ok ns /\ Forall attr_wf attrs
+      /\ sort_attrs attrs = attrs /\ nodup_keys attrs = true
+      /\ (fix all (l : list node) : Prop := match l with [] => True | k :: r => wf_node k /\ all r end) kids
+  | Text s => Forall text_char_ok s
+  | Comment s => comment_ok s = true /\ Forall text_char_ok s
+  | PI t c => is_ncname t = true /\ is_xml_target t = false /\ pi_content_ok c = true /\ starts_ws c = false
+              /\ Forall text_char_ok c
+  end.
+Definition wf_tree (t : node) : Prop := is_tag t = true /\ wf_node t.
+
+(* all namespaces of a tree, by structural recursion (the same set as tree_nss, which follows the
+   breadth-first order) *)
+Fixpoint all_nss (n : node) : list str :=
+  match n with
+  | Tag ns _ attrs kids =>
+      ns :: map attr_ns attrs ++ (fix go (l : list node) : list str :=
+                                    match l with [] => [] | k :: r => all_nss k ++ go r end) kids
+  | _ => []
+  end.
+(* prefixes the caller supplies are NCNames (or empty for the default namespace); the code does not check it *)
+Definition caller_prefixes_ncname (c : caller_map) : Prop :=
+  forall p n, In (Some p, n) c -> p = [] \/ is_ncname p = true.
